@@ -169,6 +169,20 @@ inductive TapErr | hashType | index | single
 
 def validTaprootHashTypes : List UInt32 := [0x00, 0x01, 0x02, 0x03, 0x81, 0x82, 0x83]
 
+/-- What a caller of the tapscript digest API asks for: the annex of the last annex option (if any),
+and leaf hash / code separator position of the last explicit base-tapscript option, else the hash of
+the leaf being signed with the "no code separator executed" position 0xffffffff. Key version 0. -/
+def requestedAnnex : List (Option Bytes × Option (UInt32 × Bytes)) → Option Bytes
+  | [] => none
+  | (a, _) :: rest => match requestedAnnex rest with
+    | some x => some x
+    | none => a
+
+def requestedExt (dflt : TapExt) : List (Option Bytes × Option (UInt32 × Bytes)) → TapExt
+  | [] => dflt
+  | (_, b) :: rest =>
+    requestedExt (match b with | some (p, l) => ⟨l, 0, p⟩ | none => dflt) rest
+
 /-- BIP341 `SigMsg(hash_type, ext_flag)` preceded by the epoch byte 0x00, with the BIP342 extension
 when `ext` is given. `spent` are the outputs spent by the inputs, in input order. -/
 def bip341Msg (H : Bytes → Bytes) (ht : UInt32) (tx : Tx) (spent : List TxOut) (idx : Nat)
